@@ -268,3 +268,34 @@ def forall_predicates(fd):
                 if prm is not None and body is not None:
                     out[n.targets[0].id] = (body, prm, v.func.value)
     return out
+
+
+def _minus_one(e):
+    return (isinstance(e, ast.UnaryOp) and isinstance(e.op, ast.USub) and isinstance(e.operand, ast.Constant) and e.operand.value == 1) or (isinstance(e, ast.Constant) and e.value == -1)
+
+
+def membership(e):
+    """`key in box` in any spelling of either port -> (key, box, positive); None when e is not a membership test.
+    Spellings: `k in b`, `k not in b`, `b.hasOwnProperty(k)`, `b.has(k)`, `b.includes(k)`, `b.__contains__(k)`, `b.indexOf(k) != -1 / >= 0 / > -1 / == -1 / < 0`,
+    `b.get(k) is not None` is NOT one (a stored None would differ)."""
+    pos = True
+    while isinstance(e, ast.UnaryOp) and isinstance(e.op, ast.Not):
+        e, pos = e.operand, not pos
+    if isinstance(e, ast.Compare) and len(e.ops) == 1:
+        op, l, r = e.ops[0], e.left, e.comparators[0]
+        if isinstance(op, (ast.In, ast.NotIn)):
+            return (l, r, pos == isinstance(op, ast.In))
+        if isinstance(l, ast.Call) and isinstance(l.func, ast.Attribute) and l.func.attr in ('indexOf', 'find') and len(l.args) == 1 and not l.keywords:
+            zero = isinstance(r, ast.Constant) and r.value == 0 and not isinstance(r.value, bool)
+            if _minus_one(r) and isinstance(op, (ast.NotEq, ast.Gt, ast.IsNot)):
+                return (l.args[0], l.func.value, pos)
+            if _minus_one(r) and isinstance(op, (ast.Eq, ast.Is, ast.LtE)):
+                return (l.args[0], l.func.value, not pos)
+            if zero and isinstance(op, ast.GtE):
+                return (l.args[0], l.func.value, pos)
+            if zero and isinstance(op, ast.Lt):
+                return (l.args[0], l.func.value, not pos)
+        return None
+    if isinstance(e, ast.Call) and isinstance(e.func, ast.Attribute) and e.func.attr in ('hasOwnProperty', 'has', 'includes', '__contains__') and len(e.args) == 1 and not e.keywords:
+        return (e.args[0], e.func.value, pos)
+    return None
